@@ -97,6 +97,9 @@ def run():
             check(b"\x02" + zlib.compress(body, 1 + ci % 9), "stream-deflate", ci, conn)
             if ci % 3 == 0:
                 check(b"\x00" + body, "stream-plain", ci, conn)
+        else:
+            # large trees: the compressed frame only (a server compresses large stanzas in particular)
+            check(b"\x02" + zlib.compress(body, 1), "deflate-large", "*")
         if ci in (5, 400):
             r.sample({"tree": desc, "positions": nseg, "alternatives": sum(len(sg["alts"]) for sg in segs)})
     if nbad_design:
